@@ -122,6 +122,7 @@ def plan(tier):
     add("hook-episode-deferred", "enter,deferred,leave", kinds="r")
     add("stream-state", "state,linear", entry="stream")
     add("stream-enter-state", "enter,state", entry="stream", indent=1)
+    add("hook-enter-state-indented", "enter,state", indent=1, kinds="r")
     add("stream-arcs", "arcs", entry="stream", S_=2, kinds="r")
     if tier == "thorough":
         add("hook-state-arcs", "state,arcs", S_=2)
